@@ -65,7 +65,19 @@ def canon(o, depth=0, seen=None):
     d = getattr(o, "__dict__", None)
     if d is None:
         return ("opaque", type(o).__name__, repr(o)[:80])
-    return ("obj", type(o).__name__, {k: canon(v, depth + 1, seen) for k, v in d.items() if k not in EXCLUDE_ATTRS})
+    return ("obj", type(o).__name__, {k: (estimator_summary(v) if k in EXCLUDE_ATTRS else canon(v, depth + 1, seen)) for k, v in d.items()})
+
+
+def estimator_summary(est):
+    """A fitted third-party estimator is not compared bit for bit (it is re-fitted before every use), but WHAT it is - its class and
+    its constructor parameters, the random seed among them - is part of the sampler's state."""
+    if est is None:
+        return None
+    try:
+        params = est.get_params(deep=False)
+    except Exception:  # noqa: BLE001
+        return ("estimator", type(est).__name__)
+    return ("estimator", type(est).__name__, sorted((str(k), repr(v)[:120]) for k, v in params.items()))
 
 
 def diff(a, b, path=""):
